@@ -13,7 +13,7 @@ RULE = ("(a) random valid packing inputs with 1-3 oversize items inserted at eve
         "partition_difference in {0,-1,-5,0.5,1.5,2.0,3.0}) on otherwise valid inputs: must raise ValueError; (c) BinnerKeepingSums.numitems must raise; "
         "non-trivial = oversize item not in first position and >= 2 valid items (a), any (b); distinct on the full case")
 ASSUMPTIONS = ["any return value (even a feasible-looking one) for such a request is a violation; so is an exception type other than ValueError"]
-FLOORS = {"quick": {"distinct_nontrivial": 5000, "cbldm_cases": 500}, "thorough": {"distinct_nontrivial": 50000, "cbldm_cases": 5000}}
+FLOORS = {"quick": {"distinct_nontrivial": 5000, "cbldm_cases": 500}, "thorough": {"distinct_nontrivial": 25000, "cbldm_cases": 2500}}
 OTS = ("Sums", "LargestSum", "SmallestSum", "ExtremeSums", "SortedSums", "Difference", "BinCount", "Partition", "PartitionAndSumsTuple", "PartitionAndSums")
 
 
